@@ -130,13 +130,18 @@ theorem arithGo_int (a : Act) (ha : isArith a = true) (p q : Int) (t : Ty) (ht :
   rw [if_pos ht]
   cases a <;> simp [isArith] at ha <;> simp [needsNZ, iop] <;> (split <;> simp_all)
 
-/-- yaegi side, both operands still go/constant values, node type untyped integer -/
-theorem foldBinY_const (a : Act) (ha : isArith a = true) (nty : Ty) (hu : nty.untyped = true) (hi : nty.isInt = true)
+/-- `fixUntyped` leaves constants alone (08f21a9): the frame is never indexed for them -/
+@[simp] theorem F0_fixSkipsConst : F0.eval.fixSkipsConst = true := rfl
+
+/-- yaegi side, both operands still go/constant values of kind Int: the fold is the integer operation **whatever the
+    type of the node** — in particular the quotient is the integer quotient also when the context pushed a typed or a
+    floating-point type down to the node (since the repair of F48 the switch of `quoConst` looks at the operands) -/
+theorem foldBinY_const (a : Act) (ha : isArith a = true) (nty : Ty)
     (p q : Int) (hz : ¬ (needsNZ a = true ∧ q = 0)) :
     foldBinY F0 a nty (.c (.int p)) (.c (.int q)) = .ok (.c (.int (iop a p q))) := by
   cases a <;> simp [isArith] at ha <;>
     simp [foldBinY, F0, Expected.C03.facts, Expected.C03.evalFacts, EvalFacts.foldOf, Expected.C03.constOp,
-      Expected.C03.folds, Expected.C03.quoSwitch, hu, hi, cBinary, CV.toInt, iop, needsNZ] at hz ⊢ <;>
+      Expected.C03.folds, Expected.C03.quoSwitch, cBinary, CV.toInt, iop, needsNZ] at hz ⊢ <;>
     (try simp [hz])
 
 /-- an operand of a typed arm: the reflect value of the kind, or (quotient: no conversion) the constant itself -/
